@@ -371,7 +371,11 @@ func main() {
 
 	// Reference.String() on arbitrary triples (valid and not)
 	for i := 0; i < run.Scale(5000, 100000); i++ {
-		ref := registry.Reference{Registry: common.Pick(r, []string{"localhost:5000", "docker.io", "", "h?q"}),
+		reg := common.Pick(r, []string{"localhost:5000", "docker.io", "", "h?q", "[::1]:5000", "a/b"})
+		if r.Chance(1, 3) {
+			reg = randRegistry(r)
+		}
+		ref := registry.Reference{Registry: reg,
 			Repository: common.Pick(r, []string{"a/b", "x", "", "Up"}),
 			Reference:  common.Pick(r, []string{"", "v1", randDigest(r), randJunk(r), common.Pick(r, digestPool)})}
 		formatCase(ref)
@@ -555,7 +559,7 @@ func main() {
 // broken run (layer R), not a pass.  The floors are far below what every seed produces.
 func coverageFloors() {
 	floors := map[string]int{
-		"registry": 100000, "registry_ok": 3000, "registry_ok_bracket": 200, "constructed": 20000, "constructed_accept": 5000, "parse_ok": 2000, "parse_judged_accept": 1500, "parse_judged_reject": 50000, "repo_ok": 2000, "repo_err": 5000,
+		"validate_ok": 300, "registry": 100000, "registry_ok": 3000, "registry_ok_bracket": 200, "constructed": 20000, "constructed_accept": 5000, "parse_ok": 2000, "parse_judged_accept": 1500, "parse_judged_reject": 50000, "repo_ok": 2000, "repo_err": 5000,
 		"repo_other_path_rejected": 3000, "component_repo_ok": 5000, "component_digest_ok": 3000, "component_tag_ok": 500,
 		"op_mresolve": 500, "op_mfetchref": 500, "op_tag": 500, "op_pushref": 500, "op_bresolve": 500, "op_bfetchref": 500,
 		"descop_judged": 3000, "descop_dmfetch": 300, "descop_dmdelete": 300, "descop_dbfetch": 300, "descop_dbdelete": 300, "descop_dreferrers": 300, "descop_dmount": 300, "descop_dbpush": 300, "descop_dtags": 300, "op_sent": 3000, "op_refused": 3000, "op_ground_truth": 500,
